@@ -1,12 +1,18 @@
 package main
 
 import (
+	"bufio"
+	"bytes"
 	"encoding/json"
 	"errors"
 	"fmt"
+	"io"
+	"net"
 	"net/http"
 	"net/http/httptest"
 	"runtime"
+	"strconv"
+	"strings"
 	"sync"
 	"time"
 
@@ -19,9 +25,26 @@ import (
 //
 // Startup processes are goroutines blocked on a channel the driver owns; the
 // driver ends exactly one at a time and goes on only when that goroutine has
-// left errgroup's wrapper (goroutine count dropped), so that the completion
+// left errgroup's wrapper (the goroutine that ran the process, identified by
+// its id, is no longer in the runtime's goroutine dump), so that the completion
 // order errgroup sees is the scripted one. If that cannot be established
 // within c16Wait the case is reported as not settled (and is not judged).
+//
+// HOW a probe asks is part of the case (c16Event's request fields): method,
+// query string, arbitrary request headers, a body, HTTP/1.0 or 1.1, and the
+// way it reaches the handler:
+//   via "rec"    the handler is called with an httptest.ResponseRecorder;
+//   via "raw"    the request text is written to a TCP connection to a real
+//                http.Server (httptest.NewServer around an http.ServeMux with
+//                the route "/pugjs/ready", which is how flamingo's
+//                systemendpoint mounts the handler); connections are kept in
+//                numbered slots and reused for later probes of the history
+//                (keep-alive) unless the request or the answer closes them;
+//   via "client" the same server asked by a net/http Client (own Transport,
+//                keep-alive pool) - what an orchestrator's prober does.
+// The status reported is the one the CLIENT reads from the status line. The
+// readiness answer has to be a function of the startup state only, so the
+// judge is not told how the probe asked.
 //
 // A probe made while something is still running or before Finish is a single
 // request (after a short yield so that a wrongly early close(done) becomes
@@ -32,6 +55,16 @@ type c16Event struct {
 	Op  string `json:"op"`  // add | end | finish | probe
 	P   int    `json:"p"`   // add, end: process id
 	Err int    `json:"err"` // end: 0 = returns nil, n > 0 = returns an error carrying id n
+
+	// probe: how it asks (all optional: the zero value is a plain GET through a recorder)
+	Via   string      `json:"via"`   // "" | rec | raw | client
+	M     string      `json:"m"`     // method, "" = GET
+	Q     string      `json:"q"`     // raw query string (without '?')
+	H     [][2]string `json:"h"`     // request headers in order, names as written
+	Body  string      `json:"body"`  // request body (Content-Length is added)
+	Proto string      `json:"proto"` // raw: "1.0" | "1.1" ("" = 1.1)
+	Conn  int         `json:"conn"`  // raw: connection slot
+	Close bool        `json:"close"` // raw, client: ask the server to close the connection afterwards
 }
 
 type c16Case struct {
@@ -63,6 +96,12 @@ type c16Proc struct {
 	release  chan error
 	returned chan struct{}
 	running  bool
+	gid      []byte // "goroutine N [" of the goroutine running the process (set by it before it blocks)
+}
+
+type c16Conn struct {
+	c  net.Conn
+	br *bufio.Reader
 }
 
 type c16Driver struct {
@@ -77,6 +116,11 @@ type c16Driver struct {
 	mu        sync.Mutex
 	delivered []int
 	ldone     chan struct{}
+
+	srv    *httptest.Server // started with the first probe that needs it
+	netmu  sync.Mutex       // one server probe at a time (a probe given up on may still hold a connection)
+	conns  map[int]*c16Conn
+	client *http.Client
 }
 
 func init() {
@@ -93,12 +137,181 @@ func init() {
 	}
 }
 
-// probeOnce runs the handler in its own goroutine so that a handler that
-// blocks or panics is an observation (code 0), not a hang of the harness, and
-// returns only when that goroutine is gone again (the goroutine count is what
-// end() relies on).
-func (d *c16Driver) probeOnce() int {
-	pre := runtime.NumGoroutine()
+// goroutine identity: "goroutine N [" as printed by runtime.Stack
+func c16Self() []byte {
+	var buf [64]byte
+	n := runtime.Stack(buf[:], false)
+	i := bytes.IndexByte(buf[:n], '[')
+	if i < 0 {
+		return nil
+	}
+	return append([]byte{}, buf[:i+1]...)
+}
+
+var c16Dump = make([]byte, 1<<20)
+
+// c16Alive: is the goroutine with that header still in the runtime's dump of all goroutines?
+func c16Alive(gid []byte) bool {
+	if gid == nil {
+		return false
+	}
+	for {
+		n := runtime.Stack(c16Dump, true)
+		if n < len(c16Dump) {
+			d := c16Dump[:n]
+			return bytes.HasPrefix(d, gid) || bytes.Contains(d, append([]byte("\n"), gid...))
+		}
+		c16Dump = make([]byte, 2*len(c16Dump))
+	}
+}
+
+func (d *c16Driver) server() *httptest.Server {
+	if d.srv == nil {
+		mux := http.NewServeMux() // as flamingo's systemendpoint mounts domain.Handler routes
+		mux.Handle("/pugjs/ready", d.ready)
+		d.srv = httptest.NewUnstartedServer(mux)
+		d.srv.Config.ErrorLog = nil
+		d.srv.Start()
+		d.conns = map[int]*c16Conn{}
+		d.client = &http.Client{
+			Transport:     &http.Transport{MaxIdleConnsPerHost: 4},
+			CheckRedirect: func(*http.Request, []*http.Request) error { return http.ErrUseLastResponse },
+			Timeout:       c16Wait,
+		}
+	}
+	return d.srv
+}
+
+func (d *c16Driver) closeServer() {
+	d.netmu.Lock()
+	defer d.netmu.Unlock()
+	if d.srv == nil {
+		return
+	}
+	for k, c := range d.conns {
+		_ = c.c.Close()
+		delete(d.conns, k)
+	}
+	if tr, ok := d.client.Transport.(*http.Transport); ok {
+		tr.CloseIdleConnections()
+	}
+	d.srv.Close()
+	d.srv = nil
+}
+
+func c16Target(ev c16Event) string {
+	if ev.Q != "" {
+		return "/pugjs/ready?" + ev.Q
+	}
+	return "/pugjs/ready"
+}
+
+func c16Method(ev c16Event) string {
+	if ev.M == "" {
+		return http.MethodGet
+	}
+	return ev.M
+}
+
+// the request as text on a (possibly reused) TCP connection; the status is
+// the one of the status line the client reads back
+func (d *c16Driver) probeRaw(ev c16Event) (int, error) {
+	d.netmu.Lock()
+	defer d.netmu.Unlock()
+	srv := d.server()
+	cc := d.conns[ev.Conn]
+	if cc == nil {
+		c, err := net.DialTimeout("tcp", srv.Listener.Addr().String(), c16Wait)
+		if err != nil {
+			return 0, err
+		}
+		cc = &c16Conn{c: c, br: bufio.NewReader(c)}
+		d.conns[ev.Conn] = cc
+	}
+	drop := func() {
+		_ = cc.c.Close()
+		delete(d.conns, ev.Conn)
+	}
+	proto := "1.1"
+	if ev.Proto == "1.0" {
+		proto = "1.0"
+	}
+	var b strings.Builder
+	b.WriteString(c16Method(ev) + " " + c16Target(ev) + " HTTP/" + proto + "\r\n")
+	b.WriteString("Host: " + srv.Listener.Addr().String() + "\r\n")
+	for _, h := range ev.H {
+		b.WriteString(h[0] + ": " + h[1] + "\r\n")
+	}
+	if ev.Close {
+		b.WriteString("Connection: close\r\n")
+	}
+	if ev.Body != "" {
+		b.WriteString("Content-Length: " + strconv.Itoa(len(ev.Body)) + "\r\n")
+	}
+	b.WriteString("\r\n")
+	b.WriteString(ev.Body)
+	_ = cc.c.SetDeadline(time.Now().Add(c16Wait))
+	if _, err := io.WriteString(cc.c, b.String()); err != nil {
+		drop()
+		return 0, err
+	}
+	resp, err := http.ReadResponse(cc.br, &http.Request{Method: c16Method(ev)})
+	if err != nil {
+		drop()
+		return 0, err
+	}
+	_, err = io.Copy(io.Discard, resp.Body)
+	_ = resp.Body.Close()
+	if err != nil || resp.Close || ev.Close || proto == "1.0" {
+		drop()
+	}
+	return resp.StatusCode, nil
+}
+
+func (d *c16Driver) probeClient(ev c16Event) (int, error) {
+	d.netmu.Lock()
+	defer d.netmu.Unlock()
+	srv := d.server()
+	var body io.Reader
+	if ev.Body != "" {
+		body = strings.NewReader(ev.Body)
+	}
+	req, err := http.NewRequest(c16Method(ev), srv.URL+c16Target(ev), body)
+	if err != nil {
+		return 0, err
+	}
+	for _, h := range ev.H {
+		req.Header.Add(h[0], h[1])
+	}
+	req.Close = ev.Close
+	resp, err := d.client.Do(req)
+	if err != nil {
+		return 0, err
+	}
+	_, _ = io.Copy(io.Discard, resp.Body)
+	_ = resp.Body.Close()
+	return resp.StatusCode, nil
+}
+
+func (d *c16Driver) probeRec(ev c16Event) int {
+	var body io.Reader
+	if ev.Body != "" {
+		body = strings.NewReader(ev.Body)
+	}
+	req := httptest.NewRequest(c16Method(ev), c16Target(ev), body)
+	for _, h := range ev.H {
+		req.Header.Add(h[0], h[1])
+	}
+	rec := httptest.NewRecorder()
+	d.ready.ServeHTTP(rec, req)
+	return rec.Code
+}
+
+// probeOnce asks once, in a goroutine of its own so that a handler that blocks
+// or panics is an observation (code 0), not a hang of the harness. A transport
+// error on a server probe (nothing the handler can cause on its own) is
+// retried once on a fresh connection.
+func (d *c16Driver) probeOnce(ev c16Event) int {
 	ch := make(chan int, 1)
 	go func() {
 		code := 0
@@ -106,27 +319,27 @@ func (d *c16Driver) probeOnce() int {
 			_ = recover()
 			ch <- code
 		}()
-		rec := httptest.NewRecorder()
-		d.ready.ServeHTTP(rec, httptest.NewRequest(http.MethodGet, "/pugjs/ready", nil))
-		code = rec.Code
+		switch ev.Via {
+		case "raw":
+			c, err := d.probeRaw(ev)
+			if err != nil {
+				c, _ = d.probeRaw(ev)
+			}
+			code = c
+		case "client":
+			c, err := d.probeClient(ev)
+			if err != nil {
+				c, _ = d.probeClient(ev)
+			}
+			code = c
+		default:
+			code = d.probeRec(ev)
+		}
 	}()
 	select {
 	case code := <-ch:
-		start := time.Now()
-		for n := 0; runtime.NumGoroutine() > pre; n++ {
-			if time.Since(start) > d.wait {
-				d.settled = false
-				d.timedOut()
-				break
-			}
-			if n < 100 {
-				runtime.Gosched()
-			} else {
-				time.Sleep(20 * time.Microsecond)
-			}
-		}
 		return code
-	case <-time.After(d.wait):
+	case <-time.After(3 * d.wait):
 		d.timedOut()
 		return 0
 	}
@@ -136,21 +349,21 @@ func (d *c16Driver) timedOut() {
 	d.wait = 20 * time.Millisecond
 }
 
-func (d *c16Driver) probe() c16Probe {
+func (d *c16Driver) probe(ev c16Event) c16Probe {
 	if !(d.finished && d.running == 0) {
 		runtime.Gosched()
 		time.Sleep(100 * time.Microsecond)
-		return c16Probe{Code: d.probeOnce()}
+		return c16Probe{Code: d.probeOnce(ev)}
 	}
 	start := time.Now()
-	code := d.probeOnce()
+	code := d.probeOnce(ev)
 	for n := 0; code != http.StatusOK && time.Since(start) < d.wait; n++ {
 		if n < 50 {
 			runtime.Gosched()
 		} else {
 			time.Sleep(200 * time.Microsecond)
 		}
-		code = d.probeOnce()
+		code = d.probeOnce(ev)
 	}
 	if code != http.StatusOK {
 		d.timedOut()
@@ -168,6 +381,7 @@ func (d *c16Driver) add(p int) (err error) {
 	d.procs[p] = pr
 	d.running++
 	d.s.AddProcess(func() error {
+		pr.gid = c16Self()
 		r := <-pr.release
 		close(pr.returned)
 		return r
@@ -178,7 +392,6 @@ func (d *c16Driver) add(p int) (err error) {
 // end lets process p return r and waits until its goroutine is gone.
 func (d *c16Driver) end(p int, r error) {
 	pr := d.procs[p]
-	before := runtime.NumGoroutine()
 	ok := false
 	select {
 	case pr.release <- r:
@@ -195,7 +408,7 @@ func (d *c16Driver) end(p int, r error) {
 		ok = false
 		start := time.Now()
 		for n := 0; ; n++ {
-			if runtime.NumGoroutine() < before {
+			if !c16Alive(pr.gid) {
 				ok = true
 				break
 			}
@@ -303,7 +516,7 @@ loop:
 				break loop
 			}
 		case "probe":
-			obs.Probes = append(obs.Probes, d.probe())
+			obs.Probes = append(obs.Probes, d.probe(ev))
 		default:
 			obs.Class = "bad_history"
 			break loop
@@ -312,7 +525,7 @@ loop:
 	}
 
 	if obs.Class == "ok" {
-		obs.Final = d.probe()
+		obs.Final = d.probe(c16Event{Op: "probe"})
 		if d.finished && d.running == 0 {
 			obs.ListenerDone = d.waitListener()
 		}
@@ -335,6 +548,15 @@ loop:
 			_ = d.finish()
 		}
 		d.waitListener()
+		closed := make(chan struct{})
+		go func() {
+			defer close(closed)
+			d.closeServer()
+		}()
+		select {
+		case <-closed:
+		case <-time.After(time.Second):
+		}
 		limit := d.wait
 		if limit > 200*time.Millisecond {
 			limit = 200 * time.Millisecond
